@@ -88,6 +88,8 @@ def merge_cases(pid, tier, seed):
     cases += hist_run.history_cases(hist_run.run_fault_then_valid_histories())
     # scripted: histories on 2100-element running orders (count-preserving edits, then look-ups of the edited elements)
     cases += hist_run.history_cases(hist_run.run_big_histories())
+    # scripted: every class of message into running orders whose timing metadata is nan / inf / out of range
+    cases += hist_run.history_cases(hist_run.run_corner_histories())
     return cases
 
 
@@ -104,6 +106,10 @@ def make_merge_check(pid):
             # the collection's `completed`, before and after its merge, and collections over re-used readers
             from . import coll_family
             coll_family.run_stage_checks(oc, pid, tier, seed)
+        if pid == 'C12':
+            # whether float() raises on a timing field is what a merge depends on: the model's grammar against the interpreter's
+            from . import access_family
+            access_family.numbers_check(oc, seed)
         oc.exhaustive = False
         oc.extra['exhaustive_part'] = 'the G-pos scope is enumerated completely; histories, fuzz and odd shapes are samples'
         oc.extra['scope'] = ('G-pos enumerated completely for the tier scope (see harness/gen_pos.py and '
